@@ -42,7 +42,7 @@ var (
 	gU32      = rapid.OneOf(rapid.Uint32Range(0, 50), rapid.SampledFrom([]uint32{0, 1, 1<<31 - 1, 1 << 31, 1<<32 - 1}))
 	gF32      = rapid.OneOf(rapid.Float32Range(-180, 180), rapid.SampledFrom([]float32{0, -0.0, 1, -1, 40.7527, -73.9772, 3.4e38, -3.4e38, 1e-45}))
 	gF64      = rapid.OneOf(rapid.Float64Range(0, 1e6), rapid.SampledFrom([]float64{0, 1, -1, 1e300, 5e-324, 0.1}))
-	gStopID   = rapid.SampledFrom([]string{"", "S1", "S2", "L03N", "M11N", "M11S", "a b", "é"})
+	gStopID   = rapid.SampledFrom([]string{"", "S1", "S2", "L03N", "M11N", "M11S", "M12S", "M13N", "M14S", "M16N", "M18S", "M11X", "M160", "M10N", "M15S", "M19N", "M18", "M18NN", "m11N", "a b", "é"})
 	gTripRel  = rapid.SampledFrom([]int32{0, 1, 2, 3, 5, 6, 7})
 	gSTURel   = rapid.SampledFrom([]int32{0, 1, 2, 3})
 	gStatus   = rapid.SampledFrom([]int32{0, 1, 2})
